@@ -54,6 +54,8 @@ def build(fileseed, specs, macros, structured, eol):
     gf.raw("fn generated() {" + eol)
     for cls, pos in body:
         gf.raw("    ")
+        if cls == "block_multi_paragraph" and pos in ("before_stmt_same_line", "after_stmt_same_line"):
+            pos = "own_line"
         if pos == "own_line":
             decoy(cls, pos)
             gf.newline()
@@ -126,6 +128,9 @@ def work(job):
     res["counters"]["decoys"] = len([i for i in gf.items if i.kind == "decoy"])
     res["counters"]["real_statements"] = nst
     res["counters"]["real_statements_reported"] = nfound
+    if len(gf.data()) > 65536:
+        res["counters"]["files_larger_than_64KiB"] = 1
+        res["counters"]["largest_file_bytes"] = 0
     if fileseed.endswith("-0"):
         res["samples"] = [{"decoy": it.text, "class": it.cls, "position": it.marker,
                            "reported_inside": [o for o in fo.reported if it.start <= o < it.end],
@@ -151,6 +156,12 @@ def main(tier):
                 for i in range(0, len(cs), 12):
                     jobs.append((built, "%d-%d" % (ck.seed, n), cs[i:i + 12], mi, structured, "\r\n" if n % 5 == 4 else "\n"))
                     n += 1
+    # large files (hundreds of KB): the same decoys, thousands per file, so that comments and strings lie across every
+    # possible internal buffer / window boundary
+    for b in range(2 if tier == "quick" else 24):
+        cs = [rnd.choice(combos) for _ in range(1800)]
+        cs = [c for c in cs if c[1] not in ("first_in_file", "last_line_newline", "last_line_no_newline")]
+        jobs.append((built, "%d-big%d" % (ck.seed, b), cs, b % len(MACRO_SETS), b % 2 == 1, "\n"))
     for res in frame.pmap(work, jobs, chunksize=4):
         ck.absorb(res)
     ck.extra.update({"decoy_classes": gen.DECOY_CLASSES, "positions": POSITIONS, "macro_sets": MACRO_SETS,
